@@ -86,6 +86,20 @@ CHECKS = {
         design_ref='DESIGN.md section 9 C04',
         note=BASE_NOTE + 'The VM memory model is the abstract Mem/bindParams of Model/Layout.lean (tied to the code by the sentinel runs).',
         technique='Lean 4 theorems over an executable layout model + model/implementation correspondence'),
+    'C03': dict(
+        category='proof',
+        text='Proof obligations over tables REGENERATED from the source on every run (static result type of every operator on '
+             'every operand-type pair, the pass\'s acceptance, the conversions and instructions gen_binary_op/gen_unary_op emit, '
+             'the dynamic type rule of every arithmetic/logic/comparison/conversion instruction): every accepted pair is '
+             'compiled to code whose operands reach the instruction with one type and whose result cell has the static type '
+             '(kernel-evaluated over the whole table), lifted by induction to ALL expressions: the generated code, run on any '
+             'stack, leaves exactly one more entry of the expression\'s static type. The scheme is tied to the real code '
+             'generator on generated expressions; whole programs are covered by a run-time monitor (fault traps, declared '
+             'type of every stored cell, stack depth at statement starts), not by a theorem.',
+        design_ref='DESIGN.md section 9 C03',
+        note=BASE_NOTE + 'The verifier-with-soundness-proof of the design is not built: statements, calls and control flow are '
+             'covered by the monitor only. _exec_* type behaviour is extracted by execution on one representative per type.',
+        technique='Lean 4 kernel-evaluated obligations over regenerated tables + induction; run-time monitor as search oracle'),
 }
 
 PENDING = ('not yet decided by the Lean framework in this commit; design in DESIGN.md section 9, implementation order in '
